@@ -166,55 +166,57 @@ packet Detail {
     string RuleName `" ++ [35268; 21017; 21517; 31216]%N ++ runes_of_ascii "`,
     u16 Code `" ++ [21407; 22240; 20195; 30721]%N ++ runes_of_ascii "`,
 }")).
-Eval vm_compute in ("<<<M1497>>>" ++ check (runes_of_ascii "packet falsey {
-    i64_,
-    charz {
-        match Packet as Pad {
-            ""\n"" : Packet,
-            ""// no comment"" : f32a,
-            [
-                3, 4294967296, 10,
-                7, 10
-            ] : u,
-            // trailing space 
-            ""`tick`"" : u8x,
-            [7, ""it's""] : Packet,
-            0 : len,
-        },
-    },/// triple
-    @lengthOf(f32a)
-    char[3] options1 @lengthOf(Pad),
-    zchar[0123456789] T ``,
-}
-
-packet Pad {
-    // c
-    o roots `{ , }`,
-}
-
-packet f32a {
-    _x @calculatedFrom(""x y""),
-    @tag(65535)
+Eval vm_compute in ("<<<M8>>>" ++ check (runes_of_ascii "// @lengthOf(
+packet Pad { zchar[
+    0 ]Header @calculatedFrom(
+""a	b"" ) // " ++ [27880; 37322]%N ++ runes_of_ascii "
+`say ""hi""` , @calculatedFrom(
+    ""a\""b"" // a // b
+)  body @lengthOf( body// `tick` ""quote"" 'q'
+)`say ""hi""` , u16 stringy@lengthOf(
+    // trailing space 
+    trueish ) , @lengthOf( rootA) f64 Foo `say ""hi""` // c
+,u16 Z9_ , x_y_z , }
+    MetaData metadata { uint64 x , trueish chars//
+,
+    asx lengthOf `u8 x,`  ,
+} options { body // a // b
+=	""packet"" } root
+    packet MetaDataX {zchar[
+42	]
+a1
+,Packet x_y_z // " ++ [27880; 37322]%N ++ runes_of_ascii "
+, u8 Foo
+    `u8 x,` , u64
+//	t
+/// triple
+tag, @tag( 1 //x
+)  string x_y_z @calculatedFrom( ""x y"" ) ,f32 Logon	, _x ,charz // a // b
+{
+    rootA metadata `crlf
+line`
+    , Header @calculatedFrom( ""\" ++ [233]%N ++ runes_of_ascii """ ) `` ,
+i64_`line1
+line2`
+    // @lengthOf(
+    , } ,@lengthOf(
+a1// `tick` ""quote"" 'q'
+) string
+As	`doc`
+    , @tag(
+1 ) match As
+    as	trueish
     //	t
-    char pack @lengthOf(zchar),
-    repeat int64 falsey,
-    repeat len {
-        match A as rootA {
-            [42, ""\n""] : Z9_,
-        },
-        repeat i16 A,
-        repeat zchar[65535] tag `
-        `,
-        f64 float @lengthOf(f32a) ``,
-        // `tick` ""quote"" 'q'
-        // packet A { u8 x, }
-    },
-    x u8x,
-    @tag(42)
-    repeat As Packet,
-    @lengthOf(Pad)
-    repeat f64 rootA,// @lengthOf(
-}")).
+    {
+    [ ""`tick`""
+    // trailing space 
+    ] :charz,  ""packet"": asx , 42  :
+packetx, [ ""a\\"" ] :
+u }
+,
+}
+/// triple
+")).
 Eval vm_compute in ("<<<M196>>>" ++ check (runes_of_ascii "root  packet u { match //x
 T as body// c
 {
@@ -345,232 +347,170 @@ Logon
 , } // c65a
   // c65b
 ")).
-Eval vm_compute in ("<<<M1362>>>" ++ check (runes_of_ascii "
-options { StringPrefixLenType =  u8;	ArrayPrefixLenType= 
-u32
-;
-
-FixedStringPadFromLeft=
-	true 
-; FixedStringPadChar
-    =
-
-' ' ; 
-}
-	packet Leg
-    {}
-packet Heartbeat
-    {
-
-    zchar[
-
-    6]msgKind
-    ,
-    @rightPad
-('0')
-char[3
-] Qty
-, zchar[9 ] Side2,
-	i8
-
-    Acct
-, } 
-packet Logout{int8	x,
-
-} 
-packet
-Order{
-
-char[]
-
-    Acct  ,
-zchar[
-8 ]
-	count ,
-
-    u32
-OrderId 
-,uint8 
-lastPx	,  u16
-clOrdID ,	zchar[ 
-7]
-    Note	,
-    }
-    root packet Reject {
-@leftPad(
-' '
-) char[ 8 ]Side2,
-
-i8 
-clOrdID , repeat
-	f32
-
-x
-,
-u32
-	lastPx,
-match
-lastPx as Body {
-    [30
-	, 147] : Heartbeat
-
-    ,	134 :
-Leg	, 183	:
-
-    Logout ,
-40
-	: Order,}, 
-u16	Ref 
-@calculatedFrom(
-	""CRC32"" ), }
-")).
-Eval vm_compute in ("<<<M1797>>>" ++ check (runes_of_ascii "packet stringy {
-    repeat T {
-        u64 lengthOf `tab	here`,
-        repeat _x {
-            match calculatedFrom as Header {
-                [""" ++ [233]%N ++ runes_of_ascii "t" ++ [233]%N ++ runes_of_ascii """] : _x,
-                // @lengthOf(
-                [""packet""] : MetaDataX,
-                255 : u128,
-                42 : A,
-                ""// no comment"" : body,
-            },
-            repeat crc Foo,
-            charz,
-        },
-        zchar[1] i8i8 @calculatedFrom(""x y""),
-        uint8x Pad `line1
-                line2`,
+Eval vm_compute in ("<<<M1693>>>" ++ check (runes_of_ascii "packet falsey {
+    // `tick` ""quote"" 'q'
+    repeat charz float `tab	here`,
+    char[] stringy,
+    Logon f32a,
+    char[] string_,
+    int16 _x ``,
+    match crc as stringy {
+        ""abc"" : Pad,
+        [
+            ""\n"", 10, 4294967296, 0123456789, ""abc"",
+            """ ++ [28040; 24687]%N ++ runes_of_ascii """
+        ] : i8i8,
+        10 : Header,
+        10 : calculatedFrom,
+        0123456789 : charz,
+        10 : repeatCount,
     },
-    @lengthOf(u)
-    char[4294967296] crc,
-    @tag(007)
-    repeatCount,
-    repeat char[] Header,
-    @rightPad()
-    char[] string_ `a\`,
-}")).
-Eval vm_compute in ("<<<M1720>>>" ++ check (runes_of_ascii "  packet
-    Header
+    leftPad @lengthOf(u8x),
+    @lengthOf(a1)
+    repeat x body,
+}
 
-{	char[
+MetaData string_ {
+    float64 f32a,
+    zchar[255] T,
+    u32 trueish,
+    BodyLength roots `two words`,
+}
 
-    10
-	]
+// " ++ [128512]%N ++ runes_of_ascii " emoji
+//	t
+packet stringy {
+    zchar[255] Foo,
+}
 
-    A `it's` , @calculatedFrom( 
-""" ++ [28040; 24687]%N ++ runes_of_ascii """ 
+MetaData leftPad {
+}//
+
+options {
+    x = true;
+    zchar = """"
+}//")).
+Eval vm_compute in ("<<<M23>>>" ++ check (runes_of_ascii "MetaData lengthOf
+{ }
+MetaData falsey { // " ++ [27880; 37322]%N ++ runes_of_ascii "
+falsey i64_
+`
+`	, zchar[ 255	] u `two words` ,	BodyLength int , matchKey	i8i8 `crlf
+line` ,uint8x	asx ,
+char[]options1 ,	}packet
+    asx  {	@lengthOf( o
+)@calculatedFrom(//
+""\n"" ) char[] lengthOf  `two words`// c
+,
+    BodyLength `" ++ [233]%N ++ runes_of_ascii "` ,repeat u8x len // " ++ [27880; 37322]%N ++ runes_of_ascii "
+`doc`
+, int
+@calculatedFrom(
+""a\\""
+    ) `line1
+line2`,@lengthOf( MetaDataX
 )
-    calculatedFrom	// a // b
-      @lengthOf(
-	zchar )	`tab	here`
-
-    , u32 BodyLength  ,
-
-    @lengthOf(
-stringy )//
-@rightPad (
-
-    ' '
-) @tag(0123456789
-
-    )  body{ match	i8i8 as Foo	{  [7,
-""CRC32"" ] :
-	options1
-    ,[
-""a\""b""
-,
-
-    """ ++ [128512]%N ++ runes_of_ascii """
-	,
-
-""it's"" ,
-    ""a	b"",
-	""// no comment""
-	,
-    ""it's""
-
-    , 7
-
-,
-""abc"" ]
-    :
-As ,
-
-1 :
-
-    _x 
-    // " ++ [128512]%N ++ runes_of_ascii " emoji
-//
-  }, repeat
-
-    uint8x  {  crc 
-@calculatedFrom( ""a\\""  )
-,
-
-}  , repeat
-
-    i8
-tag ,// " ++ [128512]%N ++ runes_of_ascii " emoji
-	} ,
-}
+Packet packetx
+    // `tick` ""quote"" 'q'
+    , a1 {
+    match Logon	as
+// " ++ [128512]%N ++ runes_of_ascii " emoji
+/// triple
+len {	4294967296
+:matchKey , [
+1  , 10 , 10 ,
+""{,}"" , """ ++ [233]%N ++ runes_of_ascii "t" ++ [233]%N ++ runes_of_ascii """ , 0123456789]: leftPad ,  3
+    :msg_type ,
+//	t
+//x
+1 : As
+,} ,
+    chars , }
+    ,}
 ")).
-Eval vm_compute in ("<<<M1324>>>" ++ check (runes_of_ascii "// top
-root
-    // c0
-packet Frame
-    // c2
-{ u8
-    // c4
-K
-    // c5
-,
-    // c6
-Logon
-    // c7
-first
-    // c8
-, // c9
-match // c10
-K // c11a
-  // c11b
-as
-    // c12
-Body // c13a
-  // c13b
+Eval vm_compute in ("<<<M1383>>>" ++ check (runes_of_ascii "// top
+packet // c0a
+  // c0b
+Sub // c1
 {
-    // c14
-1 : Logon
+    // c2
+u8 // c3a
+  // c3b
+a
+    // c4
+, // c5
+@calculatedFrom( ""CRC16"" )
+    // c8
+i32 // c9
+SubSum
+    // c10
+, } // c12
+root packet // c14a
+  // c14b
+Frame // c15
+{
+    // c16
+u16
     // c17
-, // c18a
+MsgType // c18a
   // c18b
-2
-    // c19
-: // c20a
+, // c19
+u16 // c20a
   // c20b
-Logout ,
-    // c22
-}
-    // c23
-, // c24a
-  // c24b
-} // c25a
+BodyLen // c21a
+  // c21b
+@lengthOf( Body ) , // c25a
   // c25b
-packet Logon { string // c29a
+Sub
+    // c26
+Body // c27
+,
+    // c28
+string // c29a
   // c29b
-user // c30
-, // c31
-} // c32
-packet
-    // c33
-Logout
-    // c34
-{ u16 reason , // c38a
-  // c38b
-} // c39a
-  // c39b
+note // c30a
+  // c30b
+,
+    // c31
+@calculatedFrom( // c32
+""CRC16"" ) i32 Checksum // c36a
+  // c36b
+, // c37a
+  // c37b
+u8 // c38
+tail , }
+    // c41
 ")).
+Eval vm_compute in ("<<<M1760>>>" ++ check (runes_of_ascii "options {
+    leftPad = 0;
+    //
+    Logon = char// `tick` ""quote"" 'q'
+    i64_ = '\x00';
+}
+
+options {
+    crc = i32;
+    matchKey = 255
+    leftPad = ' ';
+    metadata = 42;
+    packetx = 10
+}
+
+root packet A {
+    @calculatedFrom(""x y"")
+    /// triple
+    zchar[00] f32a,
+    @tag(255)
+    zchar[0123456789] a1 @lengthOf(As) `" ++ [28040; 24687; 31867; 22411]%N ++ runes_of_ascii "`,
+    int16 body,// `tick` ""quote"" 'q'
+    uint64 x @calculatedFrom(""1"") `line1
+        line2`,
+    @lengthOf(Logon)
+    char[0] float @calculatedFrom(""abc""),
+}
+
+MetaData u128 {
+}")).
 Eval vm_compute in ("<<<M301>>>" ++ check (runes_of_ascii "root packet A { repeat uint64 matchKey
     , char[]
     Packet , char[
@@ -596,322 +536,352 @@ u64 packetx@calculatedFrom(""it's"" )
 ,}options {
     }
 ")).
-Eval vm_compute in ("<<<M1636>>>" ++ check (runes_of_ascii "  options{u 
-=
-7  
-  // " ++ [27880; 37322]%N ++ runes_of_ascii "
+Eval vm_compute in ("<<<M1834>>>" ++ check (runes_of_ascii "packet matchKey {
+    float32 float,
+    @calculatedFrom(""a\\"")
+    @rightPad('\x00')
+    i16 tag @calculatedFrom(""abc""),
+    repeat zchar[255] pack,
+    @lengthOf(Z9_)
+    tag,
+}// trailing space 
 
-roots
-	= zchar[
-
-65535]	msg_type
-    =""" ++ [233]%N ++ runes_of_ascii "t" ++ [233]%N ++ runes_of_ascii """
-    ;x
-=
-false
-}
-MetaData string_
-	{
-char[ 	 // trailing space 
-	  42 
-        //x
-    // " ++ [128512]%N ++ runes_of_ascii " emoji
-
-]
-	i8i8
-
-    `" ++ [28040; 24687; 31867; 22411]%N ++ runes_of_ascii "`
-    , u8 x_y_z
-
-    ,packetx 
-lengthOf
-    `` 
-      // " ++ [27880; 37322]%N ++ runes_of_ascii "
-
-,
-    T Header
-	`line1
-line2`
-
-    ,
-char[]	// " ++ [27880; 37322]%N ++ runes_of_ascii "
-u8x
-	`two words` ,
-    } packet	float//x
-    {calculatedFrom ,
-	@rightPad
-    ( '0') 
-char[  3
-	]u128, } ")).
-Eval vm_compute in ("<<<M1259>>>" ++ check (runes_of_ascii "// top
-packet // c0
-B // c1a
-  // c1b
-{ // c2
-u8 // c3a
-  // c3b
-a // c4
-, } // c6
-root // c7a
-  // c7b
-packet // c8a
-  // c8b
-P { // c10
-u8
-    // c11
-K , // c13
-u8 // c14a
-  // c14b
-L // c15a
-  // c15b
-@lengthOf( // c16a
-  // c16b
-Body )
-    // c18
-, match // c20
-K as // c22a
-  // c22b
-Body
-    // c23
-{ 1 :
-    // c26
-B // c27
-, }
-    // c29
-,
-    // c30
-}
-    // c31
-")).
-Eval vm_compute in ("<<<M1337>>>" ++ check (runes_of_ascii "options 
-{
-
-LittleEndian	=
-
-    true
-; StringPrefixLenType
-=
-u16 ;
-FixedStringPadChar
-	=
-' ' 
-; } packet
-Logon
-{
-
-@leftPad	( '0') char[ 10 ]
-
-tag7
-	,
-}
-root packet
-
-    Ack	{ int32
-Px ,uint16	count ,
-
-string Qty	,
-    string
-    OrderId 
-,string
-Flags, u8
-    x	,  match
-x
-	as
-    Body{
-[	58
-,  169  ] :	Logon
-, } 
-, } ")).
-Eval vm_compute in ("<<<M1755>>>" ++ check (runes_of_ascii "// top
-    packet 
-      // c0
-Inner
-    // c1
-    {  // c2a
-	  // c2b
-u8
-    // c3
-  a // c4a
-	// c4b
-  ,
-} 
-	// c6
-root  // c7
-	packet 	 // c8
-
-P  // c9a
-    // c9b
-  { 
-// c10
-    Inner 	 // c11a
-// c11b
-	ref_obj
-	// c12
-, 	 // c13a
-    // c13b
-u8  x , 
-  // c16
-    } 	 // c17a
-
-// c17b
- 
-")).
-Eval vm_compute in ("<<<M1314>>>" ++ check (runes_of_ascii "packet MDSnapshotZZ {
-    u8 a,
-}
-packet OrderACK {
-    u16 b,
-}
-packet HTTPServerInfo {
-    string s,
-}
-root packet FIXMsg {
-    u8 KType,
-    MDSnapshotZZ,
-    repeat OrderACK,
-    match KType as Body {
-        1 : HTTPServerInfo,
-        2 : OrderACK,
+root packet rootA {
+    repeat metadata {
+        Logon,
     },
-}
-")).
-Eval vm_compute in ("<<<M1613>>>" ++ check (runes_of_ascii "packet body {
-    @lengthOf(T)
-    @lengthOf(int)
-    @leftPad('\x00')
-    asx len,
-    repeat zchar[3] int `" ++ [28040; 24687; 31867; 22411]%N ++ runes_of_ascii "`,
-    @lengthOf(options1)
-    match x as leftPad {
-        7 : x_y_z,
-        65535 : u128,
-        42 : x,
-    },//
-}")).
-Eval vm_compute in ("<<<M318>>>" ++ check (runes_of_ascii "options {Z9_ =// trailing space 
-""packet"" ;float = false
-; A =
-' ' }
-    // c
-    MetaData pack
-{ zchar[
-3] leftPad
-,zchar
-    falsey `it's` , char[] repeatCount ,char[ 65535 // " ++ [128512]%N ++ runes_of_ascii " emoji
-] Z9_, }
-//	t
-")).
-Eval vm_compute in ("<<<M309>>>" ++ check (runes_of_ascii "packet
-    // `tick` ""quote"" 'q'
-    _x {//
-repeat zchar[ 1 ] metadata
-    ,@leftPad
-    ( ' ' ) @lengthOf( T )@lengthOf(
-Z9_ )
-    char[] As// @lengthOf(
-,string f32a  , }
-")).
-Eval vm_compute in ("<<<M1747>>>" ++ check (runes_of_ascii "packet calculatedFrom {
-    uint8x {
-        body `line1
-                line2`,
-        string crc @lengthOf(uint8x),
-        char[] As @lengthOf(Pad),
+    @tag(10)
+    @lengthOf(A)
+    @tag(007)
+    u32 options1,
+    match float as u {
+        0123456789 : u8x,
     },
+}// " ++ [27880; 37322]%N ++ runes_of_ascii "
+
+root packet lengthOf {
 }")).
-Eval vm_compute in ("<<<M443>>>" ++ check (runes_of_ascii "packet uint8x
-{ match pack
-    as msg_type	{
-    0123456789 :	@lengthOf(
-}
-,
-} packet //	t
-a1
-    { } options {packetx
-    = '\x00'	; u128= ""a	b""  ; }
-")).
-Eval vm_compute in ("<<<M471>>>" ++ check (runes_of_ascii "packet uint8x
-{ match pack
-    as msg_type	{
-    0123456789 :	float
-}
-,
-} packet //	t
-a1
-    { { } options {packetx
-    = '\x00'	; u128= ""a	b""  ; }
-")).
-Eval vm_compute in ("<<<M397>>>" ++ check (runes_of_ascii "packet {
-uint8x match pack
-    as msg_type	{
-    0123456789 :	float
-}
-,
-} packet //	t
-a1
-    { } options {packetx
-    = '\x00'	; u128= ""a	b""  ; }
-")).
-Eval vm_compute in ("<<<M1241>>>" ++ check (runes_of_ascii "// top
-root
-    // c0
-packet // c1
-P // c2a
-  // c2b
-{ // c3
-char
-    // c4
-c // c5a
-  // c5b
-, // c6a
-  // c6b
-u8
-    // c7
-x // c8
-, // c9
-} // c10
-")).
-Eval vm_compute in ("<<<M394>>>" ++ check (runes_of_ascii "u32 uint8x
-{ match pack
-    as msg_type	{
-    0123456789 :	float
-}
-,
-} packet //	t
-a1
-    { } options {packetx
-    = '\x00'	; u128= ""a	b""  ; }
-")).
-Eval vm_compute in ("<<<M460>>>" ++ check (runes_of_ascii "packet uint8x
-{ match pack
-    as msg_type	{
-    0123456789 :	float
-}
-,
-}  //	t
-a1
-    { } options {packetx
-    = '\x00'	; u128= ""a	b""  ; }
-")).
-Eval vm_compute in ("<<<M185>>>" ++ check (runes_of_ascii "root packet lengthOf{ @leftPad
+Eval vm_compute in ("<<<M1690>>>" ++ check (runes_of_ascii "packet
+
+    a1 {
+
+    @leftPad
     (
-' '// c
-)
-repeat char MetaDataX
+) float 
+@lengthOf( 
+uint8x )
 ,
-}MetaData
-Pad {
-msg_type rootA// trailing space 
-`// not a comment`, }")).
-Eval vm_compute in ("<<<M658>>>" ++ check (runes_of_ascii "// @lengthOf(
- i8i8 { u128 o , }
+
+}packet	Logon
+	{ 
+char Logon
+@calculatedFrom(	""a\\""
+)
+    , T	stringy
+,  
+      //
+		// c
+  repeat uint8 stringy
+	`two words`	,
+} MetaData
+
+    charz  {
+
+u tag `
+` 
+,a1
+falsey  ,  //x
+Z9_
+    matchKey, f64 lengthOf `a\`// @lengthOf(
+	,  f32a roots
+
+``
+,
+
+float64  x_y_z // @lengthOf(
+,
+	}")).
+Eval vm_compute in ("<<<M323>>>" ++ check (runes_of_ascii "options{ }
+MetaData  string_ // `tick` ""quote"" 'q'
+{ u32
+matchKey `u8 x,`,
+    string  MetaDataX , uint8
+Logon, uint64 options1
+, char[ 00 ] len
+// `tick` ""quote"" 'q'
+// trailing space 
+`tab	here` , u8
+options1
+, }// a // b
+packet a1 { chars ,
+char[]
+i64_ @lengthOf(
+    // " ++ [27880; 37322]%N ++ runes_of_ascii "
+    stringy
+) ,char T,repeat i8 charz
+`a\`
+,
+}
+")).
+Eval vm_compute in ("<<<M1497>>>" ++ check (runes_of_ascii "
+
+  // top
+    packet	// c0
+
+Inner // c1
+	{ // c2
+	u8 	 // c3a
+	  // c3b
+    	a // c4
+	, 
+
+// c5
+	  }  // c6
+      root// c7
+	packet	// c8a
+  // c8b
+P// c9
+{// c10a
+    // c10b
+
+repeat  // c11a
+  // c11b
+	Inner items  // c13
+	, // c14
+u8 
+// c15
+    	x  ,	// c17a
+	// c17b
+  }	// c18
+")).
+Eval vm_compute in ("<<<M177>>>" ++ check (runes_of_ascii "root
+packet Logon {
+    @rightPad
+(// @lengthOf(
+'0' ) repeat
+    charz // " ++ [27880; 37322]%N ++ runes_of_ascii "
+{// " ++ [128512]%N ++ runes_of_ascii " emoji
+Z9_ `{ , }` , string string_ `say ""hi""` , repeat int8  rootA ,	match Foo	as
+pack {
+[ 42
+// c
+/// triple
+, 0 ] :u, ""a\""b"" : int
+,
+}
+// c
+// `tick` ""quote"" 'q'
+,
+} , }")).
+Eval vm_compute in ("<<<M1382>>>" ++ check (runes_of_ascii "packet Sub {
+    u8 a,
+    @calculatedFrom(""CRC16"") i32 SubSum,
+}
+root packet Frame {
+    u16 MsgType,
+    u16 BodyLen @lengthOf(Body),
+    Sub Body,
+    string note,
+    @calculatedFrom(""CRC16"") i32 Checksum,
+    u8 tail,
+}
+")).
+Eval vm_compute in ("<<<M10>>>" ++ check (runes_of_ascii "MetaData //	t
+x{
+    } packet rootA
+//x
+//	t
+{ i64	As
+//x
+// @lengthOf(
+@lengthOf(
+    A )
+`// not a comment` ,
+}
+    options { asx =	string ; i8i8 =zchar[
+0123456789 ];	Foo =10 ; As =true
+; }
+")).
+Eval vm_compute in ("<<<M1281>>>" ++ check (runes_of_ascii "// top
+root // c0a
+  // c0b
+packet P {
+    // c3
+u16
+    // c4
+a
+    // c5
+,
+    // c6
+u32 // c7a
+  // c7b
+Sum // c8
+@calculatedFrom( // c9a
+  // c9b
+""CRC32"" ) , } // c13
+")).
+Eval vm_compute in ("<<<M453>>>" ++ check (runes_of_ascii "packet uint8x
+{ match pack
+    as msg_type	{
+    0123456789 :	float
+}
+@lengthOf(
+} packet //	t
+a1
+    { } options {packetx
+    = '\x00'	; u128= ""a	b""  ; }
+")).
+Eval vm_compute in ("<<<M1714>>>" ++ check (runes_of_ascii "MetaData chars {
+}
+
+options {
+    As = true;
+    As = false;
+    stringy = true
+}
+
+packet repeatCount {
+    string float @lengthOf(matchKey) `say ""hi""`,
+}")).
+Eval vm_compute in ("<<<M544>>>" ++ check (runes_of_ascii "packet uint8x
+{ match pack
+    as msg_type	{
+    0123456789 :	float
+}
+,
+} packet //	t
+a1
+    { } options {packetx
+    = " ++ [65279]%N ++ runes_of_ascii " '\x00'	; u128= ""a	b""  ; }
+")).
+Eval vm_compute in ("<<<M447>>>" ++ check (runes_of_ascii "packet uint8x
+{ match pack
+    as msg_type	{
+    0123456789 :	float
+,
+}
+} packet //	t
+a1
+    { } options {packetx
+    = '\x00'	; u128= ""a	b""  ; }
+")).
+Eval vm_compute in ("<<<M475>>>" ++ check (runes_of_ascii "packet uint8x
+{ match pack
+    as msg_type	{
+    0123456789 :	float
+}
+,
+} packet //	t
+a1
+    {  options {packetx
+    = '\x00'	; u128= ""a	b""  ; }
+")).
+Eval vm_compute in ("<<<M668>>>" ++ check (runes_of_ascii "// @len'1'gthOf(
+packet i8i8 { u128 o , }
 options { MetaDataX = true;
     BodyLength =""packet"" x_y_z= 007
 crc //x
 = ""abc"" ;
     msg_type =
 i16 }")).
-Eval vm_compute in ("<<<M514>>>" ++ check (runes_of_ascii "packet uint8x
+Eval vm_compute in ("<<<M723>>>" ++ check (runes_of_ascii "// @lengthOf(
+packet i8i8 { u128 o , }
+options { MetaD?ataX = true;
+    BodyLength =""packet"" x_y_z= 007
+crc //x
+= ""abc"" ;
+    msg_type =
+i16 }")).
+Eval vm_compute in ("<<<M1921>>>" ++ check (runes_of_ascii "packet A {
+    u16 len @lengthOf(body) `a
+        
+        b`,
+    u32 crc @calculatedFrom(""CRC32"") `a
+        
+        b`,
+    string body,
+}")).
+Eval vm_compute in ("<<<M1616>>>" ++ check (runes_of_ascii "packet
+
+A
+    {
+match 
+k as
+	n{
+[1 ,	22  ,""c c""
+
+    ,	4 
+,
+
+5, ""f"",
+
+    7  ,  8	,""i""
+, 
+10 ,  11]
+    :B
+
+    2 : 
+C }
+	,
+}
+
+")).
+Eval vm_compute in ("<<<M304>>>" ++ check (runes_of_ascii "packet
+    // " ++ [27880; 37322]%N ++ runes_of_ascii "
+    Logon {
+repeatCount @lengthOf( roots ) , @tag(0) repeat zchar[007] crc , rootA a1 `{ , }` , string_ `" ++ [233]%N ++ runes_of_ascii "`
+,  }
+")).
+Eval vm_compute in ("<<<M1654>>>" ++ check (runes_of_ascii "packet B {
+    u8 a,
+}
+
+root packet P {
+    u8 K,
+    u64 L @lengthOf(Body),
+    match K as Body {
+        1 : B,
+    },
+}")).
+Eval vm_compute in ("<<<M1157>>>" ++ check (runes_of_ascii "MetaData leftPad { chars MetaDataX , } packet // c
+repeatCount { char[ 255 ] uint8x `" ++ [233]%N ++ runes_of_ascii "` , } MetaData pack { As Foo , }")).
+Eval vm_compute in ("<<<M1660>>>" ++ check (runes_of_ascii "
+packet
+B
+	{ 
+u8 a
+    ,
+    string
+
+s	,
+}
+    root
+packet
+
+    P
+{
+u16
+L  @lengthOf(B 
+)  ,	B,
+
+u8
+
+    t ,
+}
+")).
+Eval vm_compute in ("<<<M290>>>" ++ check (runes_of_ascii "options {
+    /// triple
+    asx // " ++ [27880; 37322]%N ++ runes_of_ascii "
+= 3 } MetaData T
+{  f32/// triple
+Pad `u8 x,` , } // `tick` ""quote"" 'q'")).
+Eval vm_compute in ("<<<M909>>>" ++ check (runes_of_ascii "packet A {
+  match k as n {
+    [1, ""bb"", 007, ""d"", 5, ""f"", 7, ""h"", 9, ""j"", 11, ""l""] : B
+    2 : C
+  },
+}")).
+Eval vm_compute in ("<<<M484>>>" ++ check (runes_of_ascii "packet uint8x
 { match pack
     as msg_type	{
     0123456789 :	float
@@ -919,163 +889,146 @@ Eval vm_compute in ("<<<M514>>>" ++ check (runes_of_ascii "packet uint8x
 ,
 } packet //	t
 a1
-    { } options {packetx
-    = '\x00'	;")).
-Eval vm_compute in ("<<<M1915>>>" ++ check (runes_of_ascii "packet A {
-    match k as n {
-        [
-            1, 22, 007, 4, 5,
-            66
-        ] : B,
-        2 : C,
-    },
-}")).
-Eval vm_compute in ("<<<M1151>>>" ++ check (runes_of_ascii "MetaData leftPad { chars MetaDataX // c
-, } packet repeatCount { char[ 255 ] uint8x `" ++ [233]%N ++ runes_of_ascii "` , } MetaData pack { As Foo , }")).
-Eval vm_compute in ("<<<M1183>>>" ++ check (runes_of_ascii "MetaData leftPad { chars MetaDataX , } packet repeatCount { char[ 255 ] uint8x `" ++ [233]%N ++ runes_of_ascii "` , } MetaData pack { As // c
-Foo , }")).
-Eval vm_compute in ("<<<M1625>>>" ++ check (runes_of_ascii "
-packet B
-
-    {u8
-a  , string 
-s
-,} root
-	packet
-
-P 
-{
-	u16 L
-	@lengthOf(  B
-
-    )  , B  ,
-
-u8
-    t ,
-	}
+    { }")).
+Eval vm_compute in ("<<<M1267>>>" ++ check (runes_of_ascii "packet B {
+    u8 a,
+    string s,
+}
+root packet P {
+    u16 L @lengthOf(B),
+    B,
+    u8 t,
+}
 ")).
-Eval vm_compute in ("<<<M908>>>" ++ check (runes_of_ascii "packet A {
-  match k as n {
-    [1, ""bb"", 007, ""d"", 5, ""f"", 7, ""h"", 9, ""j"", 11, ""l""] : B,
-    2 : C
-  },
-}")).
-Eval vm_compute in ("<<<M889>>>" ++ check (runes_of_ascii "packet A {
-  match k as n {
-    [""a"", ""bb"", 007, ""d"", ""e"", 66, ""g"", ""h"", 9, ""j""] : B
-    2 : C
-  },
-}")).
-Eval vm_compute in ("<<<M900>>>" ++ check (runes_of_ascii "packet A {
-  match k as n {
-    [1, 22, ""c c"", 4, 5, ""f"", 7, 8, ""i"", 10, 11] : B
-    2 : C
-  },
-}")).
-Eval vm_compute in ("<<<M615>>>" ++ check (runes_of_ascii "
+Eval vm_compute in ("<<<M635>>>" ++ check (runes_of_ascii "
+packet
+    asx {'1'match u128 as lengthOf
+{
+//	t
+// `tick` ""quote"" 'q'
+255 : x ,
+    } ,	}")).
+Eval vm_compute in ("<<<M637>>>" ++ check (runes_of_ascii "
+~packet
+    asx {match u128 as lengthOf
+{
+//	t
+// `tick` ""quote"" 'q'
+255 : x ,
+    } ,	}")).
+Eval vm_compute in ("<<<M587>>>" ++ check (runes_of_ascii "
+packet
+    asx {match u128 as lengthOf
+
+//	t
+// `tick` ""quote"" 'q'
+255 : x ,
+    } ,	}")).
+Eval vm_compute in ("<<<M621>>>" ++ check (runes_of_ascii "
 packet
     asx {match u128 as lengthOf
 {
 //	t
 // `tick` ""quote"" 'q'
 255 : x ,
-    match ,	}")).
-Eval vm_compute in ("<<<M870>>>" ++ check (runes_of_ascii "packet A {
+    }")).
+Eval vm_compute in ("<<<M852>>>" ++ check (runes_of_ascii "packet A {
   match k as n {
-    [1, ""bb"", 007, ""d"", 5, ""f"", 7, ""h"", 9] : B
+    [1, 22, 007, 4, 5, 66, 7, 8] : B,
     2 : C
   },
 }")).
-Eval vm_compute in ("<<<M849>>>" ++ check (runes_of_ascii "packet A {
-  match k as n {
-    [""a"", ""bb"", 007, ""d"", ""e"", 66, ""g""] : B,
-    2 : C
-  },
+Eval vm_compute in ("<<<M1904>>>" ++ check (runes_of_ascii "packet A {
+    // a
+    @tag(1)
+    u8 x,// b
+    // c
+    @tag(2)
+    u8 y,
 }")).
-Eval vm_compute in ("<<<M771>>>" ++ check (runes_of_ascii "true @tag( root : repeat @calculatedFrom( match f64 int32 ] { zchar[ packet @lengthOf(")).
-Eval vm_compute in ("<<<M844>>>" ++ check (runes_of_ascii "packet A {
-  match k as n {
-    [1, ""bb"", 007, ""d"", 5, ""f"", 7] : B
-    2 : C
-  },
-}")).
-Eval vm_compute in ("<<<M819>>>" ++ check (runes_of_ascii "packet A {
-  match k as n {
-    [""a"", 22, ""c c"", 4, ""e""] : B,
-    2 : C
-  },
-}")).
-Eval vm_compute in ("<<<M1661>>>" ++ check (runes_of_ascii "  packet
-A  {  }
-
-    packet B
-{ 
-}
-MetaData M
-    { 
-} options
-    {
-}
-")).
-Eval vm_compute in ("<<<M797>>>" ++ check (runes_of_ascii "packet A {
-  match k as n {
-    [""a"", ""bb"", 007] : B,
-    2 : C
-  },
-}")).
-Eval vm_compute in ("<<<M1098>>>" ++ check (runes_of_ascii "packet A {
-    match k as n {
-        1 : B,
-        // c
-    },
-}")).
-Eval vm_compute in ("<<<M825>>>" ++ check (runes_of_ascii "packet A { Inner { match k as n { [1,22,007,4,5] : B, }, }, }")).
-Eval vm_compute in ("<<<M930>>>" ++ check (runes_of_ascii "packet A {
-    B b `
-`,
-    B `
-`,
-    repeat B bs `
-`,
-}")).
-Eval vm_compute in ("<<<M1197>>>" ++ check (runes_of_ascii "// c
-packet body { i32 f32a `{ , }` , } options { }")).
-Eval vm_compute in ("<<<M375>>>" ++ check (runes_of_ascii "options {Foo = '0'	;	Pad = '0';	crc ='0' ; //	t
-}")).
-Eval vm_compute in ("<<<M968>>>" ++ check (runes_of_ascii "options {
-    a = ""x\
-y"";
-    b = ""x\
-y""
-}")).
-Eval vm_compute in ("<<<M591>>>" ++ check (runes_of_ascii "
-packet
-    asx {match u128 as lengthOf")).
-Eval vm_compute in ("<<<M424>>>" ++ check (runes_of_ascii "packet uint8x
+Eval vm_compute in ("<<<M459>>>" ++ check (runes_of_ascii "packet uint8x
 { match pack
-    as")).
-Eval vm_compute in ("<<<M934>>>" ++ check (runes_of_ascii "root packet A {
-    u8 x `
-`,
+    as msg_type	{
+    0123456789 :	float
+}
+,")).
+Eval vm_compute in ("<<<M1856>>>" ++ check (runes_of_ascii "
+packet
+
+    A
+	{ 
+B b `a
+b`
+,
+B`a
+b` ,
+
+repeat
+
+B
+	bs
+`a
+b` , }
+")).
+Eval vm_compute in ("<<<M788>>>" ++ check (runes_of_ascii "packet A {
+  match k as n {
+    [1, 22, 007] : B
+    2 : C
+  },
 }")).
-Eval vm_compute in ("<<<M759>>>" ++ check (runes_of_ascii "= u64 ; u32 MetaData packet {")).
-Eval vm_compute in ("<<<M1490>>>" ++ check (runes_of_ascii "// c" ++ [12288]%N ++ runes_of_ascii "
-	  packet
-    A{} ")).
-Eval vm_compute in ("<<<M1105>>>" ++ check (runes_of_ascii "MetaData // c
-tag { }")).
-Eval vm_compute in ("<<<M1062>>>" ++ check (runes_of_ascii "// c x
+Eval vm_compute in ("<<<M779>>>" ++ check (runes_of_ascii "packet A {
+  match k as n {
+    [1, 22] : B
+    2 : C
+  },
+}")).
+Eval vm_compute in ("<<<M1670>>>" ++ check (runes_of_ascii "packet calculatedFrom {
+    repeat string Foo `{ , }`,
+}")).
+Eval vm_compute in ("<<<M1202>>>" ++ check (runes_of_ascii "packet body
+// c
+{ i32 f32a `{ , }` , } options { }")).
+Eval vm_compute in ("<<<M1567>>>" ++ check (runes_of_ascii "MetaData M {
+    u8 x `
+    `,
+    T t `
+    `,
+}")).
+Eval vm_compute in ("<<<M1221>>>" ++ check (runes_of_ascii "// top
+packet // c0
+x // c1
+{ // c2
+} // c3
+")).
+Eval vm_compute in ("<<<M752>>>" ++ check (runes_of_ascii "repeatCount u32 as false uint64 0 @tag(")).
+Eval vm_compute in ("<<<M197>>>" ++ check (runes_of_ascii "
+options {u8x
+=
+    ""packet"" ;	}
+")).
+Eval vm_compute in ("<<<M1579>>>" ++ check (runes_of_ascii "packet A {
+    // a
+    u8 x,
+}")).
+Eval vm_compute in ("<<<M941>>>" ++ check (runes_of_ascii "packet A {
+    u8 x `a
+
+b`,
+}")).
+Eval vm_compute in ("<<<M1903>>>" ++ check (runes_of_ascii "options {
+    // a // b
+}")).
+Eval vm_compute in ("<<<M1107>>>" ++ check (runes_of_ascii "MetaData tag // c
+{ }")).
+Eval vm_compute in ("<<<M1133>>>" ++ check (runes_of_ascii "MetaData u
+// c
+{ }")).
+Eval vm_compute in ("<<<M1027>>>" ++ check (runes_of_ascii "// c" ++ [8287]%N ++ runes_of_ascii "
 packet A {
 }")).
-Eval vm_compute in ("<<<M1016>>>" ++ check (runes_of_ascii "packet A {
-}
-// c" ++ [8233]%N)).
-Eval vm_compute in ("<<<M994>>>" ++ check (runes_of_ascii "packet A {
-}// c" ++ [5760]%N)).
-Eval vm_compute in ("<<<M566>>>" ++ check (runes_of_ascii "
-packet
-    asx")).
-Eval vm_compute in ("<<<M741>>>" ++ check ([65533; 65533]%N ++ runes_of_ascii "1" ++ [65533]%N ++ runes_of_ascii "dcV")).
-Eval vm_compute in ("<<<M111>>>" ++ check (runes_of_ascii "
-
-")).
+Eval vm_compute in ("<<<M1014>>>" ++ check (runes_of_ascii "packet A {
+}// c" ++ [8233]%N)).
+Eval vm_compute in ("<<<M762>>>" ++ check (runes_of_ascii "w|lL|]kVFeknSP9")).
+Eval vm_compute in ("<<<M561>>>" ++ check (runes_of_ascii "
+packet")).
+Eval vm_compute in ("<<<M56>>>" ++ check (runes_of_ascii " 	 ")).
